@@ -38,6 +38,43 @@ type frame struct {
 	loops  map[*ssa.BasicBlock]*loopInfo
 	// guard of the block being executed (may be strengthened by calls)
 	g T
+	// havocked heap constants awaiting their well-formedness facts (need the post-call frontier)
+	pendingWF    [][2]string
+	pendingCell  [][2]string
+	pendingField []pendF
+}
+
+type pendF struct {
+	c   string
+	typ types.Type
+}
+
+// flushWF emits well-formedness facts for constants havocked by a call, relative to the
+// allocation frontier after the call.
+func (fr *frame) flushWF(front T) {
+	vc := fr.vc
+	for _, p := range fr.pendingWF {
+		vc.heapWF(p[0], p[1], front)
+	}
+	for _, p := range fr.pendingCell {
+		elem := vc.heapElem[p[1]]
+		if elem == nil {
+			continue
+		}
+		if vc.heapRows[p[1]] {
+			x := "(select " + p[0] + " wf_i)"
+			f := vc.typeFacts(x, elem, front, 0)
+			if f != tTrue {
+				vc.assume("(forall ((wf_i Int)) (! " + f + " :pattern (" + x + ")))")
+			}
+		} else {
+			vc.assume(vc.typeFacts(p[0], elem, front, 0))
+		}
+	}
+	for _, p := range fr.pendingField {
+		vc.assume(vc.typeFacts(p.c, p.typ, front, 0))
+	}
+	fr.pendingWF, fr.pendingCell, fr.pendingField = nil, nil, nil
 }
 
 type loopInfo struct {
@@ -302,6 +339,11 @@ func (fr *frame) enterLoop(h *ssa.BasicBlock, edges []edgeState, ord int) (*Stat
 	na := vc.fresh("lalloc", "Int")
 	vc.assume(le(stIn.alloc, na))
 	hst.alloc = na
+	for _, k := range names {
+		if (mod == nil || mod[k]) && !vc.ghost[k] {
+			vc.heapWF(hst.heaps[k], k, na)
+		}
+	}
 	for _, ins := range h.Instrs {
 		phi, ok := ins.(*ssa.Phi)
 		if !ok {
@@ -791,7 +833,6 @@ func (fr *frame) unop(x *ssa.UnOp, cur *State) SV {
 		l := vc.locOf(a)
 		t := vc.loadLoc(cur, l)
 		t = vc.nameTerm("ld", t, vc.sortOf(x.Type()))
-		vc.assume(implies(fr.g, vc.typeFacts(t, x.Type(), cur.alloc, 0)))
 		return SV{t: t, typ: x.Type()}
 	case token.NOT:
 		return SV{t: not(a.t), typ: x.Type()}
